@@ -314,10 +314,10 @@ restate vertex_coloring_first_fit_safe := PyamgV.C17R4.firstFit_safe
 /-- one round shared by the two parallel colourings (parallel MIS with `max_iters = 1`, un-marking, first fit) keeps
 "uncoloured = -1, colours below `K`"; the separation of the nodes marked `K` is what puts `x[j]` below `K` -/
 restate parallel_coloring_round_safe := PyamgV.C17R4.parRound_safe
-/-- `vertex_coloring_jones_plassmann`, `n > 0`, any weights, any number of rounds (for `n = 0` the final
-`*std::max_element(x, x)` reads `x[0]`) -/
+/-- `vertex_coloring_jones_plassmann`, any `n` (for `n = 0` the kernel returns `-1` before `*std::max_element(x, x)`), any weights,
+any number of rounds -/
 restate vertex_coloring_jones_plassmann_safe := PyamgV.C17R4.vertexColoringJP_safe
-/-- `vertex_coloring_LDF`, `n > 0`, any weights, any number of rounds -/
+/-- `vertex_coloring_LDF`, any `n`, any weights, any number of rounds -/
 restate vertex_coloring_LDF_safe := PyamgV.C17R4.vertexColoringLDF_safe
 /-- progress of one pass of the parallel independent set from a vector without entries `C`: with order-like weight comparisons
 (`WOrd`: `>` irreflexive and transitive, compatible with `==`; true for IEEE doubles, NaN included) the active node that is maximal
@@ -325,7 +325,7 @@ for (weight, index) is marked `C`, so `N ≥ 1`; and the number of negative entr
 restate mis_parallel_pass_progress := PyamgV.C17R4.mpPass_progress
 /-- one colouring round keeps the invariant with the bookkeeping `n ≤ N + #uncoloured` and colours a node when one is left -/
 restate parallel_coloring_round_progress := PyamgV.C17R4.parRound_progress
-/-- `vertex_coloring_jones_plassmann` TERMINATES within `n` rounds (`n > 0`, any structurally valid pattern, `WOrd` weights) and is
+/-- `vertex_coloring_jones_plassmann` TERMINATES within `n` rounds (any structurally valid pattern, `WOrd` weights) and is
 in range: `ok = true` of the model run with fuel `n` includes termination -/
 restate vertex_coloring_jones_plassmann_total := PyamgV.C17R4.vertexColoringJP_total
 /-- `vertex_coloring_LDF` terminates within `n` rounds and is in range -/
@@ -350,8 +350,7 @@ restate pairwise_aggregation_safe := PyamgV.C17R4.pairwiseAgg_safe
 restate cljp_select_safe := PyamgV.C17R4.cjSelect_safe
 /-- one pass of `while(unassigned > 0)`: `S`, `T` any two structurally valid patterns; `edgemark` is indexed by positions of `S` -/
 restate cljp_pass_safe := PyamgV.C17R4.cjPass_safe
-/-- `cljp_naive_splitting`, both weight initialisations, any number of passes (with colouring `n > 0`: for `n = 0` the kernel
-dereferences `max_element` of an empty vector) -/
+/-- `cljp_naive_splitting`, both weight initialisations, any number of passes (for `n = 0` the kernel returns at once) -/
 restate cljp_naive_splitting_safe := PyamgV.C17R4.cljp_safe
 /-- one pass of `while(unassigned > 0)` lowers `unassigned`: it never exceeds the number of `U_NODE` entries, and a `U` node of maximal
 weight passes both scans of the selection (weight comparison `>` irreflexive and transitive: `CjOrd`) -/
@@ -483,9 +482,9 @@ example : (C17R4.vertexColoringMis 3 #[0,1,2,3] #[1,5,2] #[7,7,7]).ok = false :=
 /-- integer weights for the examples -/
 def exWOps : C17R4.WOps Int := ⟨fun a b => decide (b < a), fun a b => decide (a = b), fun a i => a + i, fun i => i⟩
 /-- E32: Jones-Plassmann on the triangle with equal weights terminates inside its fuel with the flag set; on the empty graph
-(`n = 0`) the final `max_element` read faults -/
+(`n = 0`) the model returns `-1` like the kernel, without touching `x` -/
 example : ((C17R4.vertexColoringJP exWOps 3 #[0,2,4,6] #[1,2,0,2,0,1] #[7,7,7] #[0,0,0] 4).map (fun r => (r.val.1, r.ok))) = some (#[2,1,0], true) := by decide
-example : ((C17R4.vertexColoringJP exWOps 0 #[0] #[] #[] #[] 1).map (·.ok)) = some false := by decide
+example : ((C17R4.vertexColoringJP exWOps 0 #[0] #[] #[] #[] 0).map (fun r => (r.val.2.2, r.ok))) = some (-1, true) := by decide
 
 /-- E32: the hypothesis `WOrd` of the termination theorems holds for the integers -/
 example : C17R4.WOrd exWOps :=
